@@ -429,6 +429,15 @@ impl Encoder {
         }
     }
 
+    /// Registers an existing pointer target (used for names that live in the header bytes).
+    pub fn add_site(&mut self, offset: usize, suffix: Vec<Vec<u8>>) {
+        self.sites.push(Site {
+            offset,
+            suffix,
+            hops: 0,
+        });
+    }
+
     fn u16(&mut self, v: u16) {
         self.buf.extend_from_slice(&v.to_be_bytes());
     }
